@@ -262,6 +262,8 @@ pub fn deviations(base: &Case, max_wits: usize) -> Vec<Dev<Case>> {
             ("{B:-5}", Some(vec![(policy(), vec![(asset_b(), -5)])])),
             ("{A:0}", Some(vec![(policy(), vec![(asset_a(), 0)])])),
             ("{A:+5,B:-5}", Some(vec![(policy(), vec![(asset_a(), 5), (asset_b(), -5)])])),
+            ("{A:+5,B:-1}", Some(vec![(policy(), vec![(asset_a(), 5), (asset_b(), -1)])])),
+            ("{A:+5,B:+1}", Some(vec![(policy(), vec![(asset_a(), 5), (asset_b(), 1)])])),
             ("{A:2^63-1}", Some(vec![(policy(), vec![(asset_a(), i64::MAX as i128)])])),
             ("{A:-2^63}", Some(vec![(policy(), vec![(asset_a(), i64::MIN as i128)])])),
             ("{A:2^63}", Some(vec![(policy(), vec![(asset_a(), 1i128 << 63)])])),
@@ -583,12 +585,12 @@ pub fn deviations(base: &Case, max_wits: usize) -> Vec<Dev<Case>> {
                 }
             });
         }
-        dev!("each(mem)=2^63", "exmem", |c: &mut Case| {
+        dev!("every redeemer mem=2^63", "exmem", |c: &mut Case| {
             if let Some(r) = c.tx.wits.redeemers.as_mut() {
                 r.iter_mut().for_each(|x| x.mem = Q63)
             }
         });
-        dev!("each(steps)=2^63", "exsteps", |c: &mut Case| {
+        dev!("every redeemer steps=2^63", "exsteps", |c: &mut Case| {
             if let Some(r) = c.tx.wits.redeemers.as_mut() {
                 r.iter_mut().for_each(|x| x.steps = Q63)
             }
